@@ -35,7 +35,7 @@ RULE = ('abstract baskets (1-6 sequences; lengths 0-200 biased to 0, 1, 59-61; n
         'every cycle with fmt given and with content detection (path, neutral extension, StringIO, BytesIO); archive stream: '
         'write(fname, archive=True|zip|tar|gztar|bztar|xztar) for every format, read() of the produced archive with and without fmt')
 TRUSTED = ['CPython text layer (open/TextIOWrapper universal newlines, StringIO), str.strip/lstrip/rstrip/split/upper/removeprefix, '
-           're.match on IDPATTERN (modelled by a hand-written matcher, pinned to the pattern text and compared on adversarial '
+           're.match on IDPATTERN (modelled by a hand-written matcher, pinned to the structural form of the pattern (CPython parse tree, normalised: tools/gens/c01.py canon_regex) and compared on adversarial '
            'headers), json.dump/json.load text layer (SJSON is modelled at tree level), dict insertion order, the OS appending '
            'bytes in mode "a"',
            'modelled: BioSeq.__init__ (seq.py:213-235), fasta.py:18-94, stockholm.py:94-203 (sequence lines; annotation lines only '
